@@ -31,7 +31,10 @@ ASSUMPTIONS = [
     "relative mismatch of an iteration = max over edges of |A_sum(J) - previous iterate| / |new iterate| (the documented exit test)",
 ]
 TOLERANCES = {"kernel": 1e-12, "error": 1e-6, "iterate": 1e-9, "stored_multiple": 5.0}
-AB = [(0.1, 0.5), (0.5, 0.5), (1.0, 1.0), (0.05, 0.1)]
+AB = [(0.1, 0.5), (0.5, 0.5), (1.0, 1.0), (0.05, 0.1),
+      # divergent settings (accepted by SolverOptions.validate): the iterates grow until they overflow; such a step must end in the error
+      (10.0, 0.5), (4.5, 1.0)]
+DIVERGENT = (4, 5)
 
 
 def bound(tier):
@@ -54,8 +57,10 @@ def cases(tier, seed):
     devs = ["G1s", "G5", "G2"] + ([] if quick else ["G1b"])
     fields = (0.2, 1.0) if quick else (0.2, 0.6, 1.0)
     tols = (1e-2, 1e-3) if quick else (1e-2, 1e-3, 1e-4)
-    for d, B, tol, ab, mi in itertools.product(devs, fields, tols, range(len(AB)), (1000, 3)):
+    for d, B, tol, ab, mi in itertools.product(devs, fields, tols, range(4), (1000, 3)):
         out.append(dict(fam="run", dev=d, B=B, tol=tol, ab=ab, maxit=mi))
+    for d, ab, mi in itertools.product(("G5", "G1s") if quick else devs, DIVERGENT, (1000, 250)):
+        out.append(dict(fam="run", dev=d, B=0.6, tol=1e-3, ab=ab, maxit=mi))
     if quick:
         # a biased device (terminals and screening together)
         for mi in (1000, 3):
@@ -283,6 +288,9 @@ def run_run(case):
         by_step.setdefault(c[0], []).append(c)
     for step, its in sorted(by_step.items()):
         for it, (_, J, A_prev, v_prev, A_new, err) in enumerate(its):
+            if not (np.all(np.isfinite(A_new)) and np.all(np.isfinite(J)) and np.isfinite(err)) or max(np.abs(A_new).max(), np.abs(J).max()) > 1e100:
+                res.count("iterations_beyond_the_floating_point_range")  # a diverging iteration: only its outcome is judged (below)
+                break
             A_ref = si.A_of(J)
             dA = A_ref - A_prev
             v = (1 - beta) * v_prev + alpha * dA
